@@ -6,7 +6,7 @@
    rearrangements (Permutation (sh l) l), so every statement holds for every iteration order. *)
 From Coq Require Import Permutation.
 From Verif Require Import Lib.Bytes StateRes.Event StateRes.Kahn StateRes.V2 StateRes.V1 StateRes.Entry
-     StateRes.SortProofs StateRes.KahnProofs StateRes.OrderProofs StateRes.ResultProofs StateRes.CmpProofs StateRes.KahnSetProofs StateRes.OrderSetProofs StateRes.V2Spec StateRes.SplitProofs StateRes.AgreedProofs StateRes.SubsetProofs StateRes.SubsetOldProofs StateRes.V1Proofs.
+     StateRes.SortProofs StateRes.KahnProofs StateRes.OrderProofs StateRes.ResultProofs StateRes.CmpProofs StateRes.KahnSetProofs StateRes.OrderSetProofs StateRes.V2Spec StateRes.SplitProofs StateRes.AgreedProofs StateRes.SubsetProofs StateRes.SubsetOldProofs StateRes.V1Proofs StateRes.FixedPointProofs.
 
 (* slices.SortStableFunc by a total order whose ties are identities: the result depends only on
    the set of elements, not on the order they were in (map iteration order, input order) *)
@@ -94,8 +94,10 @@ Section Results.
   Proof. intro result. apply smap_wf_unique, resolve_v2_old_wf. Qed.
 
   (* an event the split reports as unconflicted (one per key) is kept: the unconflicted events
-     are re-applied after everything else *)
-  Theorem agreed_keys_kept_partial authmap r0 control others unconflicted e k :
+     are re-applied after everything else.  (The tail of both drivers; the statement against the
+     state sets - a key on which all state sets agree keeps that event - is agreed_keys_kept
+     below.) *)
+  Theorem unconflicted_kept_by_tail authmap r0 control others unconflicted e k :
     In e unconflicted -> event_tkey e = Some k ->
     (forall e', In e' unconflicted -> event_tkey e' = Some k -> e' = e) ->
     In e (result_events (resolve_tail allowed rejected shP priv cl ud authmap r0 control others unconflicted)).
@@ -130,24 +132,17 @@ Section AgainstInputs.
     In e (result_events (resolve v21 sets auth_events)).
   Proof. intros. apply agreed_keys_kept_v2; assumption. Qed.
 
-  (* state sets that all hold the same events (each a map): every one of these events is in the
-     result. (The converse inclusion - nothing else is - is checked by the oracle only.) *)
-  Theorem equal_sets_fixed_point_partial v21 sets auth_events e :
+  (* state sets that all hold the same events (each a map) are a fixed point: the result is
+     exactly their state events.  Nothing is conflicted (FixedPointProofs.nothing_conflicted),
+     the full auth chains of the sets coincide, so the auth difference is empty
+     (auth_difference_empty, with C10's chain-walk completeness), and the unconflicted events
+     are kept (agreed_keys_kept). *)
+  Theorem equal_sets_fixed_point v21 sets auth_events e :
     (forall s, In s sets -> NoDup (ids_of s)) -> ids_identify (concat sets) ->
     (forall s a b, In s sets -> In a s -> In b s -> event_tkey a = event_tkey b -> e_id a = e_id b) ->
     (forall s1 s2 x, In s1 sets -> In s2 sets -> In x s1 -> present_in x s2) ->
-    In e (concat sets) -> e_skey e <> None ->
-    In e (result_events (resolve v21 sets auth_events)).
-  Proof.
-    intros ND Hid Hmap Heq Hin Hsk. apply agreed_keys_kept; auto.
-    pose proof Hin as Hin'. apply in_concat in Hin' as [s0 [Hs0 He0]].
-    split; [exact Hsk|]. split.
-    - intros s Hs. apply (Heq s0 s e Hs0 Hs He0).
-    - intros s e' Hs He' Ek. destruct (Heq s0 s e Hs0 Hs He0) as [e'' [He'' Eid]].
-      assert (e'' = e).
-      { apply Hid; [apply in_concat; exists s; auto|exact Hin|exact Eid]. }
-      subst e''. unfold same_id. apply (Hmap s e' e Hs He' He''). exact Ek.
-  Qed.
+    (In e (result_events (resolve v21 sets auth_events)) <-> In e (concat sets) /\ e_skey e <> None).
+  Proof. intros. apply equal_sets_fixed_point_v2; assumption. Qed.
 End AgainstInputs.
 
 
@@ -259,7 +254,7 @@ Print Assumptions power_order_is_topological_permutation.
 Print Assumptions result_at_most_one_per_key.
 Print Assumptions result_only_state_events.
 Print Assumptions result_at_most_one_per_key_deprecated.
-Print Assumptions agreed_keys_kept_partial.
+Print Assumptions unconflicted_kept_by_tail.
 Print Assumptions power_sort_canonical.
 Print Assumptions mainline_sort_canonical.
 Print Assumptions kahn_depends_on_set_only.
@@ -268,6 +263,6 @@ Print Assumptions power_order_order_independent.
 Print Assumptions mainline_order_order_independent.
 Print Assumptions result_subset_of_inputs.
 Print Assumptions agreed_keys_kept.
-Print Assumptions equal_sets_fixed_point_partial.
+Print Assumptions equal_sets_fixed_point.
 Print Assumptions result_subset_of_inputs_deprecated.
 Print Assumptions result_subset_of_inputs_v1.
